@@ -1,6 +1,7 @@
 import OjgVerif.Common.Driver
 import OjgVerif.Json.Spec
 import OjgVerif.Json.Tables
+import OjgVerif.Json.BufModel
 /-! Driver ops of the JSON machine family. -/
 namespace OjgVerif.Json
 open OjgVerif
@@ -30,7 +31,10 @@ def parseChunks (s : String) : Option (List Nat) :=
   else (s.splitOn ",").mapM (fun t => t.toNat?)
 
 /-- `run <tables> <single|multi> <opts> <chunk lengths> <hex input>`;
-opts is a string of flags: `r` reader entry point, `f` parser integer fast loop -/
+opts is a string of flags: `r` reader entry point, `f` parser integer fast loop.
+`runbuf …` (same arguments): the BUFFER-LEVEL model `runB` of oj.Parser / gen.Parser (`Json/BufModel.lean`:
+one `parseBuffer` call per read buffer, every fast path explicit); the chunk lengths are the sizes of
+the reads the implementation actually saw. Only for the parsers (`f`). -/
 def handle : List String → String
   | ["spec", hx] =>
     match ofHex hx with
@@ -48,6 +52,16 @@ def handle : List String → String
       else
         let cfg : Cfg := { onlyOne := md = "single", reader := opts.contains 'r', fastInt := opts.contains 'f' }
         renderRun (run T cfg (if ns.isEmpty then [bs] else splitChunks bs ns))
+    | _, _, _ => "bad-op"
+  | ["runbuf", fe, md, opts, chunks, hx] =>
+    match ofHex hx, tablesOf fe, parseChunks chunks with
+    | some bs, some T, some ns =>
+      if md ≠ "single" && md ≠ "multi" then "bad-op"
+      else if opts.toList.any (fun c => c ≠ 'r' && c ≠ 'f' && c ≠ '-') then "bad-op"
+      else if !opts.contains 'f' then "bad-op"
+      else
+        let cfg : Cfg := { onlyOne := md = "single", reader := opts.contains 'r', fastInt := true }
+        renderRun (runB T cfg FP.all (if ns.isEmpty then [bs] else splitChunks bs ns))
     | _, _, _ => "bad-op"
   | _ => "bad-op"
 
